@@ -172,7 +172,9 @@ func runAll(specs []string) [][]string {
 				}
 				ls, ok := w.run(specs[i])
 				res[i] = ls
-				if !ok {
+				if !ok || strings.Contains(specs[i], ",GP") || strings.Contains(specs[i], ",GS") ||
+					strings.Contains(specs[i], " GP") || strings.Contains(specs[i], " GS") {
+					// hung / died, or the scenario set a process-wide function that cannot be cleared again
 					w.kill()
 					w = startWorker()
 				}
@@ -195,7 +197,8 @@ type execT struct{ have bool }
 
 var replayMode bool
 
-var eventWords = map[string]bool{"call": true, "ret": true, "beg": true, "end": true, "en": true, "dis": true, "latereg": true, "obs": true, "fin": true}
+var eventWords = map[string]bool{"call": true, "ret": true, "beg": true, "end": true, "en": true, "dis": true, "latereg": true, "obs": true, "fin": true,
+	"setg": true, "glob": true}
 
 func (e *execT) Do(line string) string {
 	if strings.HasPrefix(line, "hang") {
@@ -500,6 +503,146 @@ func (g *gen) scenario() (*scenario, string) {
 	return sc, kind
 }
 
+// outsideScenario: calls around and outside the usual Start … Shutdown bracket, which the module system does not
+// refuse and the model describes as the code is written: ManageModules before Start, a first Start after
+// Shutdown, ManageModules after Shutdown, repeated calls; and the process-wide functions Start and Shutdown run
+// besides the module routines: global prep function (first one set wins; may fail with any error value), global
+// shutdown function, command-line operation (last one set wins).
+func (g *gen) outsideScenario() (*scenario, string) {
+	rng := g.rng
+	var sc *scenario
+	for {
+		var kind string
+		sc, kind = g.scenario()
+		if !strings.HasPrefix(kind, "cyclic") && !strings.HasPrefix(kind, "missing-dep") && sc.N <= 8 {
+			break
+		}
+	}
+	n := sc.N
+	var ops []string
+	ed := func(k int) {
+		for ; k > 0 && n > 0; k-- {
+			if rng.Intn(3) != 0 {
+				ops = append(ops, fmt.Sprintf("E%d", rng.Intn(n)))
+			} else {
+				ops = append(ops, fmt.Sprintf("D%d", rng.Intn(n)))
+			}
+		}
+	}
+	class := []string{"manage-before-start", "start-after-shutdown", "manage-after-shutdown", "global-functions", "global-functions", "mixed"}[rng.Intn(6)]
+	globals := func() {
+		// which functions are set, in which order, and what they return
+		if rng.Intn(3) != 0 {
+			ops = append(ops, fmt.Sprintf("GP%d", rng.Intn(3)))
+			if rng.Intn(3) == 0 {
+				ops = append(ops, fmt.Sprintf("GP%d", rng.Intn(3))) // ignored: the first function stays
+			}
+		}
+		if rng.Intn(2) == 0 {
+			ops = append(ops, fmt.Sprintf("GS%d", rng.Intn(3)))
+			if rng.Intn(3) == 0 {
+				ops = append(ops, fmt.Sprintf("GS%d", rng.Intn(3)))
+			}
+		}
+		if rng.Intn(3) == 0 {
+			ops = append(ops, fmt.Sprintf("GC%d", rng.Intn(3)))
+			if rng.Intn(3) == 0 {
+				ops = append(ops, fmt.Sprintf("GC%d", rng.Intn(3))) // replaces the previous one
+			}
+		}
+		for i := 0; i < 3; i++ {
+			if rng.Intn(4) == 0 {
+				sc.Fail[fmt.Sprintf("G.p.%d", i)] = errClasses[rng.Intn(len(errClasses))]
+			}
+			if rng.Intn(4) == 0 {
+				sc.Fail[fmt.Sprintf("G.c.%d", i)] = errClasses[rng.Intn(len(errClasses))]
+			}
+		}
+	}
+	switch class {
+	case "manage-before-start":
+		sc.Mgmt = rng.Intn(5) != 0
+		ed(rng.Intn(3))
+		ops = append(ops, "M")
+		ed(rng.Intn(3))
+		if rng.Intn(2) == 0 {
+			ops = append(ops, "M")
+		}
+		ops = append(ops, "S")
+		ed(rng.Intn(3))
+		if rng.Intn(2) == 0 {
+			ops = append(ops, "M")
+		}
+		ops = append(ops, "X")
+	case "start-after-shutdown":
+		ed(rng.Intn(3))
+		if rng.Intn(4) == 0 {
+			ops = append(ops, "M")
+		}
+		ops = append(ops, "X", "S")
+		ed(rng.Intn(3))
+		if rng.Intn(2) == 0 {
+			ops = append(ops, "M")
+		}
+		if rng.Intn(2) == 0 {
+			ops = append(ops, "X")
+		}
+		if rng.Intn(4) == 0 {
+			ops = append(ops, "S")
+		}
+	case "manage-after-shutdown":
+		sc.Mgmt = rng.Intn(5) != 0
+		ed(rng.Intn(4))
+		ops = append(ops, "S")
+		ed(rng.Intn(3))
+		if rng.Intn(2) == 0 {
+			ops = append(ops, "M")
+		}
+		ops = append(ops, "X")
+		for k := 1 + rng.Intn(3); k > 0; k-- {
+			ed(rng.Intn(3))
+			ops = append(ops, "M")
+		}
+		if rng.Intn(2) == 0 {
+			ops = append(ops, "X")
+		}
+	case "global-functions":
+		globals()
+		ed(rng.Intn(3))
+		ops = append(ops, "S")
+		if rng.Intn(6) == 0 {
+			ops = append(ops, "S")
+		}
+		ed(rng.Intn(3))
+		if rng.Intn(2) == 0 {
+			ops = append(ops, "M")
+		}
+		if rng.Intn(8) != 0 {
+			ops = append(ops, "X")
+		}
+		if rng.Intn(6) == 0 {
+			ops = append(ops, "X")
+		}
+	default:
+		globals()
+		for k := 3 + rng.Intn(6); k > 0; k-- {
+			switch rng.Intn(6) {
+			case 0:
+				ops = append(ops, "S")
+			case 1:
+				ops = append(ops, "X")
+			case 2, 3:
+				ops = append(ops, "M")
+			default:
+				ed(1 + rng.Intn(2))
+			}
+		}
+	}
+	sc.Notify = sc.Mgmt && sc.Notify
+	sc.Ops = ops
+	return sc, "outside/" + class
+}
+
 // restartScenario: a short chain with instantaneous callbacks; Start, optionally one management pass that
 // stops and restarts the top module, then Shutdown immediately.
 func (g *gen) restartScenario() *scenario {
@@ -623,6 +766,11 @@ func generate(r *hxlib.Run, emit func(hxlib.Case)) {
 					r.Count("event:" + strings.Join(strings.Fields(l)[:2], "-"))
 				case strings.HasPrefix(l, "ret "):
 					r.Count("event:" + strings.ReplaceAll(l, " ", "-"))
+				case strings.HasPrefix(l, "glob "):
+					ff := strings.Fields(l)
+					r.Count("event:glob-" + ff[1] + "-" + ff[len(ff)-1])
+				case strings.HasPrefix(l, "setg "):
+					r.Count("event:setg-" + strings.Fields(l)[1])
 				case strings.HasPrefix(l, "hang"), strings.HasPrefix(l, "crash"), strings.HasPrefix(l, "bad-"):
 					r.Count("event:" + strings.Fields(l)[0])
 				}
@@ -656,6 +804,14 @@ func generate(r *hxlib.Run, emit func(hxlib.Case)) {
 		}
 	}
 	flush()
+	for i := 0; i < r.Budget(3000, 50000); i++ {
+		sc, kind := g.outsideScenario()
+		batch = append(batch, item{sc.line(), kind, sc})
+		if len(batch) >= 512 {
+			flush()
+		}
+	}
+	flush()
 	// stop right after start: the module started last is stopped first, within microseconds. This is where
 	// leftovers of a start goroutine can still touch the stop protocol of the same module.
 	for i := 0; i < r.Budget(24000, 400000); i++ {
@@ -677,7 +833,9 @@ const rule = "one case = one scenario executed on the real module system: a gene
 	"prep/start/stop callbacks that panic or return an error (the returned VALUE drawn from a dictionary: plain, context.Canceled / DeadlineExceeded / " +
 	"ErrCleanExit / ErrRestartNow bare, %w-wrapped, twice wrapped and joined, *ModuleError, an error whose Is method says yes to everything, a typed nil " +
 	"pointer, an empty message, io.EOF; every class x prep/start/stop also runs as a fixed sweep on a 3-chain), nil callbacks, and a sequence Start, Enable/Disable+ManageModules…, Shutdown (plus glue: double " +
-	"Start/Shutdown, late Register, cycles, unregistered dependencies), plus a class of short chains with instantaneous callbacks where the " +
+	"Start/Shutdown, late Register, cycles, unregistered dependencies), a class of calls outside that bracket (ManageModules before Start, a first " +
+	"Start after Shutdown, ManageModules after Shutdown, random call orders) with global prep functions (first set wins; failing with any " +
+	"error value of the dictionary), global shutdown functions and command-line operations (last set wins), plus a class of short chains with instantaneous callbacks where the " +
 	"module started last is stopped (and restarted) within microseconds. The recorded history (callback begin/end in global order, return values, " +
 	"status/enabled/enabled-as-dependency of every module after each call) is replayed through the Lean model (acceptor) and judged by the monitor. " +
 	"Non-trivial: at least 2 modules, at least one dependency edge and at least two start routines ran; distinct by hash of scenario + history."
